@@ -1,7 +1,7 @@
 (* C16 proofs: the pooled bitmap implements a set; the scan visits exactly the marked ids; the end-to-end struct
    handling equals the rule of the property (truth table). *)
 From Coq Require Import ZArith List Bool Lia.
-From DG Require Import Requireness.
+From DG Require Import Requireness ThriftCutProofs.
 Import ListNotations.
 Local Open Scope Z_scope.
 
@@ -389,3 +389,103 @@ Section Struct.
       intros op Hop. apply in_map_iff in Hop. destruct Hop as [i [<- Hi]]. apply Hpres. exact Hi.
   Qed.
 End Struct.
+
+(* ---------------- the value written for an unmet field ---------------- *)
+From DG Require Import ProtoWireRef ThriftWire ThriftCut.
+
+Lemma default_bytes_encode tc l v : lit_value tc l = Some v -> make_default_bytes tc l = Some (encode v).
+Proof.
+  destruct l as [z|b|s|b]; cbn [lit_value make_default_bytes]; unfold is_int_code, int_width.
+  - destruct (Z.eqb_spec tc T_BYTE) as [->|]; [intros H; inversion H; reflexivity|].
+    destruct (Z.eqb_spec tc T_I16) as [->|]; [intros H; inversion H; reflexivity|].
+    destruct (Z.eqb_spec tc T_I32) as [->|]; [intros H; inversion H; reflexivity|].
+    destruct (Z.eqb_spec tc T_I64) as [->|]; [intros H; inversion H; reflexivity|discriminate].
+  - destruct (tc =? T_DOUBLE); [intros H; inversion H; reflexivity|discriminate].
+  - destruct (tc =? T_STRING); [intros H; inversion H; reflexivity|discriminate].
+  - destruct (tc =? T_BOOL); [intros H; inversion H; destruct b; reflexivity|discriminate].
+Qed.
+
+Lemma lit_value_type tc l v : lit_value tc l = Some v -> type_of v = tc.
+Proof.
+  destruct l as [z|b|s|b]; cbn [lit_value].
+  - destruct (Z.eqb_spec tc T_BYTE) as [->|]; [intros H; inversion H; reflexivity|].
+    destruct (Z.eqb_spec tc T_I16) as [->|]; [intros H; inversion H; reflexivity|].
+    destruct (Z.eqb_spec tc T_I32) as [->|]; [intros H; inversion H; reflexivity|].
+    destruct (Z.eqb_spec tc T_I64) as [->|]; [intros H; inversion H; reflexivity|discriminate].
+  - destruct (Z.eqb_spec tc T_DOUBLE) as [->|]; [intros H; inversion H; reflexivity|discriminate].
+  - destruct (Z.eqb_spec tc T_STRING) as [->|]; [intros H; inversion H; reflexivity|discriminate].
+  - destruct (Z.eqb_spec tc T_BOOL) as [->|]; [intros H; inversion H; reflexivity|discriminate].
+Qed.
+
+Lemma zero_of_type t z : zero_of t = Some z -> type_of z = type_code t.
+Proof.
+  destruct t as [c|i|e|e|k e]; cbn [zero_of type_code]; try (intros H; inversion H; reflexivity).
+  destruct (Z.eqb_spec c T_BOOL) as [->|]; [intros H; inversion H; reflexivity|].
+  destruct (Z.eqb_spec c T_BYTE) as [->|]; [intros H; inversion H; reflexivity|].
+  destruct (Z.eqb_spec c T_I16) as [->|]; [intros H; inversion H; reflexivity|].
+  destruct (Z.eqb_spec c T_I32) as [->|]; [intros H; inversion H; reflexivity|].
+  destruct (Z.eqb_spec c T_I64) as [->|]; [intros H; inversion H; reflexivity|].
+  destruct (Z.eqb_spec c T_DOUBLE) as [->|]; [intros H; inversion H; reflexivity|].
+  destruct (Z.eqb_spec c T_STRING) as [->|]; [intros H; inversion H; reflexivity|discriminate].
+Qed.
+
+Lemma default_or_zero_type p f v : default_or_zero p f = Some v -> type_of v = type_code (v_ty f).
+Proof.
+  unfold default_or_zero. destruct (parsed_default p (v_f f)).
+  - destruct (v_lit f) as [l|]; [apply lit_value_type|discriminate].
+  - apply zero_of_type.
+Qed.
+
+(* WriteDefaultOrEmpty writes exactly the encoding of default_or_zero *)
+Theorem write_default_or_empty_encode p f v : default_or_zero p f = Some v -> write_default_or_empty p f = Some (encode v).
+Proof.
+  unfold default_or_zero, write_default_or_empty. destruct (parsed_default p (v_f f)).
+  - destruct (v_lit f) as [l|]; [apply default_bytes_encode|discriminate].
+  - intros H. rewrite H. reflexivity.
+Qed.
+
+(* the bytes a handler appends for an unmet field it decides to write = that field of a struct holding default_or_zero:
+   encode (VStruct [(id, v)]) without the STOP byte *)
+Theorem unmet_field_bytes_encode p a f v : is_write a -> default_or_zero p f = Some v ->
+  unmet_field_bytes p a f = Some (type_of v :: enc_int 2 (f_id (v_f f)) ++ encode v) /\
+  (forall bs, unmet_field_bytes p a f = Some bs -> encode (VStruct [(f_id (v_f f), v)]) = bs ++ [0]).
+Proof.
+  intros Hw Hv. pose proof (default_or_zero_type p f v Hv) as Ht. pose proof (write_default_or_empty_encode p f v Hv) as He.
+  assert (E : unmet_field_bytes p a f = Some (type_of v :: enc_int 2 (f_id (v_f f)) ++ encode v)).
+  { unfold unmet_field_bytes. destruct Hw as [->| ->]; rewrite He, Ht; reflexivity. }
+  split; [exact E|]. intros bs Hbs. rewrite E in Hbs. inversion Hbs; subst bs. cbn [encode flat_map fst snd]. rewrite app_nil_r.
+  cbn [app]. rewrite <- app_assoc. reflexivity.
+Qed.
+
+(* which value: the declared default exactly when the rule says AWriteDefault, the zero value when it says AWriteZero *)
+Theorem unmet_value_by_rule p w f :
+  (rule p w (v_f f) = AWriteDefault -> default_or_zero p f = match v_lit f with Some l => lit_value (type_code (v_ty f)) l | None => None end) /\
+  (rule p w (v_f f) = AWriteZero -> default_or_zero p f = zero_of (v_ty f)) /\
+  (is_write (rule p w (v_f f)) -> (rule p w (v_f f) = AWriteDefault <-> parsed_default p (v_f f) = true)).
+Proof.
+  unfold rule, write_action, default_or_zero, is_write.
+  destruct (negb (Requireness.tracked p (v_f f))).
+  { split; [discriminate|]. split; [discriminate|]. intros [HH|HH]; discriminate. }
+  destruct (f_req (v_f f) =? 1), (f_req (v_f f) =? 0), (w_require w), (w_default w), (w_optional w), (parsed_default p (v_f f)); cbn [orb];
+  (split; [|split]); try discriminate; try (intros _; reflexivity); try (intros [HH|HH]; discriminate);
+  try (intros _; split; [reflexivity|intros _; reflexivity]); try (intros _; split; [discriminate|discriminate]).
+Qed.
+
+(* a well-formed field (f_hasdef = the declared literal fits the type) always has a value to be filled with *)
+Lemma default_or_zero_total p f : vfld_ok f = true -> ty_valid (v_ty f) = true -> exists v, default_or_zero p f = Some v.
+Proof.
+  unfold vfld_ok, default_or_zero, parsed_default. intros Hok Hty.
+  destruct (p_use_default p && f_hasdef (v_f f)) eqn:E.
+  - apply andb_true_iff in E. destruct E as [_ Hd]. rewrite Hd in Hok. apply eqb_prop in Hok.
+    destruct (v_lit f) as [l|]; [|discriminate]. destruct (lit_value (type_code (v_ty f)) l) as [v|]; [exists v; reflexivity|discriminate].
+  - destruct (ThriftCutProofs.zero_of_valid _ Hty) as [z [Hz _]]. exists z. exact Hz.
+Qed.
+
+(* pointwise equal decisions give the same struct handling *)
+Lemma handle_ids_ext d1 d2 fs ids : (forall id f, In id ids -> find_fld16 id fs = Some f -> d1 f = d2 f) ->
+  handle_ids d1 fs ids = handle_ids d2 fs ids.
+Proof.
+  induction ids as [|i r IH]; intros H; [reflexivity|]. cbn [handle_ids].
+  rewrite IH by (intros id f Hin; apply H; right; exact Hin).
+  destruct (find_fld16 i fs) as [f|] eqn:Ef; [|reflexivity]. rewrite (H i f (or_introl eq_refl) Ef). reflexivity.
+Qed.
